@@ -152,7 +152,10 @@ PROPS["C14"] = {
                   "executed on Model/Writer, for all payloads, statuses 100..999 and GET/HEAD; `zero_writes_nothing`, "
                   "`written_iff_nonempty`, `fast_eq_reflective`, `custom_handler_replaces` cover the remaining clauses. The model is "
                   "tied to return_handler.go / context.go run() / teapotInvoker by an exhaustive small-scope and random differential "
-                  "check: real handlers of 31 Go func types at five chain positions, served by a real Flame on every run.",
+                  "check: real handlers of 31 Go func types at five chain positions — and the result lists of the table lifted over the "
+                  "parameter lists (Context) / (http.ResponseWriter, *http.Request) / (Context, *http.Request) / (*http.Request), i.e. every "
+                  "complete signature the framework may special-case with a FastInvoker — served by a real Flame on every run; error "
+                  "values of concrete kind struct, pointer, string, byte slice, int and func behind the static type error / interface{}.",
     "level_note": "Trusted: Lean kernel; hand-written model tied by differential testing only. `(int, x)` always sends the int "
                   "status, even when x is nil/empty (chain stops) and panics in net/http when the int is outside 100..999 — "
                   "stated as theorems, the literal 'zero results write nothing' reading for (0, \"\") is proved false.",
@@ -160,7 +163,8 @@ PROPS["C14"] = {
     "suite": "C14",
     "stats": generic_stats(_c14_nontrivial,
         "sessions = one Flame (method, chain position, handler func type, optional custom ReturnHandler, optional pre-write) "
-        "serving 1..n requests whose handler returns the listed values, plus `retseq` sessions: one Flame, each request one chain "
+        "serving 1..n requests whose handler returns the listed values (func types `<P>.<base>`: the result list of <base> behind the "
+        "parameter list P = C|W|Q|R, exhaustive over the table's rows with the small value pools, a third of the random draws), plus `retseq` sessions: one Flame, each request one chain "
         "of up to 8 handlers that return values and/or Map a ReturnHandler into the request or app scope mid-chain (exhaustive "
         "to depth 4/5 over a 9-step alphabet, then random), plus `retnest` sessions: a nested request with its own func() (int, string) "
         "handler is served (from a Before hook or from a custom ReturnHandler) while the outer handler's result is being rendered, "
@@ -174,7 +178,9 @@ PROPS["C14"] = {
         "the recorder, unlike a real server, treats 1xx as final and does not strip bodies for 204/304 — codes are compared as recorded",
         "the injector lookup of the ReturnHandler is a parameter (request scope, then app scope) — C04 proves the scope rule"],
     "assumptions": ["a value's Error() method is deterministic; an Error() that panics is modelled as Act.panic after the 500 status",
-                    "convention: a value whose dynamic type implements error has a kind other than Int/String/byte-slice",
+                    "convention: a value whose dynamic type implements error AND whose static result type is that concrete type has a kind "
+                    "other than Int/String/byte-slice (behind the static type error / interface{} every kind is generated: the table "
+                    "asserts error before it looks at the kind)",
                     "the wrapped writer accepts every byte (short writes are C13's subject)"],
 }
 
@@ -258,6 +264,12 @@ def _c16_stats(lines, sessions, R, M):
             l = lines[i]
             if l.startswith("CLEAN ") or l.startswith("JOIN "):
                 clean += 1
+                continue
+            if l.startswith("BURST "):
+                f = l.split()
+                kinds["bursts"] = kinds.get("bursts", 0) + 1
+                kinds["requests_in_bursts"] = kinds.get("requests_in_bursts", 0) + int(f[1]) * ((len(f) - 2) // 3)
+                kinds["largest_burst"] = max(kinds.get("largest_burst", 0), int(f[1]) * ((len(f) - 2) // 3))
                 continue
             if not l.startswith("REQ "):
                 continue
@@ -608,7 +620,9 @@ PROPS["C03"] = {
         "sessions = one real Flame per handler stack (exhaustive over stacks of depth<=3 (quick) / 4 (thorough) from a "
         "15-handler alphabet, spread over all middleware/group/route/action layouts; methods GET/HEAD/POST all three for depth<=2, "
         "cycling for deeper stacks; plus every HEAD stack of depth<=3 over 8 handlers that answer without an explicit status; "
-        "then random stacks up to depth 7/10 with a random method); "
+        "then random stacks up to depth 7/10 with a random method); the return effect of a handler is delivered through every Go "
+        "signature that can deliver it — 5 parameter lists x 9 result lists x the rows of the return-value table, exhaustive in short "
+        "stacks (handler first / inside a Next() / last), half of the random handlers; "
         "distinct by op text; non-trivial = a handler called Next() and >=2 handlers started in one request, or the chain "
         "was cut short after a write/cancel"),
     "known_match": no_known,
